@@ -2,6 +2,7 @@
 //! the ndjson trace that TLC validates.
 //!   worlddrv script <ops.ndjson> <trace.ndjson>
 //!   worlddrv random <seed> <histories> <ops-per-history> <trace.ndjson>
+mod qfamily;
 use brood_verif_harness::*;
 use rand::{rngs::StdRng, Rng, SeedableRng};
 use serde_json::{json, Value};
@@ -16,7 +17,7 @@ fn vals(rng: &mut StdRng) -> Vec<u32> {
     (0..5).map(|_| rng.gen_range(1..900)).collect()
 }
 
-fn gen_op(rng: &mut StdRng, d: &Driver) -> Value {
+fn gen_op(rng: &mut StdRng, d: &Driver, profile: &str) -> Value {
     let live: Vec<usize> = (1..=MAXW).filter(|w| d.ws[w - 1].is_some()).collect();
     let dead: Vec<usize> = (1..=MAXW).filter(|w| d.ws[w - 1].is_none()).collect();
     if live.is_empty() {
@@ -43,10 +44,31 @@ fn gen_op(rng: &mut StdRng, d: &Driver) -> Value {
         }
         json!({"k": rng.gen_range(1..=n_issued)})
     };
-    let crowded = n_live >= 10;
-    let many_issued = n_issued >= 48;
+    let (max_live, max_issued) = if profile == "par" { (72, 110) } else { (10, 48) };
+    let crowded = n_live >= max_live;
+    let many_issued = n_issued >= max_issued;
     loop {
-        let x = rng.gen_range(0..100);
+        let mut x = rng.gen_range(0..100);
+        if profile == "queries" && rng.gen_bool(0.45) {
+            x = 97;
+        }
+        if profile == "par" {
+            // grow a few large tables, then query them in parallel on different pools
+            if !crowded && !many_issued && rng.gen_bool(0.35) {
+                let orders: [&[u8]; 4] = [&[2, 3], &[2], &[4, 2, 3, 0, 1], &[3, 4]];
+                let o = orders[rng.gen_range(0..4)].to_vec();
+                let n = rng.gen_range(3..14);
+                let rows: Vec<Vec<u32>> = (0..n).map(|_| vals(rng)).collect();
+                return json!({"op": "extend", "w": w, "order": o, "rows": rows, "extra": 0});
+            }
+            if rng.gen_bool(0.4) {
+                let pq: Vec<usize> = (0..qfamily::N_QUERIES).filter(|q| qfamily::is_par(*q)).collect();
+                let q = pq[rng.gen_range(0..pq.len())];
+                let pool = [1, 2, 3, 4, 8, 16][rng.gen_range(0..6)];
+                return json!({"op": "query", "w": w, "q": q, "v": rng.gen_range(1..50), "pool": pool});
+            }
+            if x >= 79 && x <= 89 { x = 28; }   // fewer copies, more removals
+        }
         match x {
             0..=15 if !crowded && !many_issued => {
                 return json!({"op": "insert", "w": w, "order": pick_order(rng), "vals": vals(rng)});
@@ -97,7 +119,11 @@ fn gen_op(rng: &mut StdRng, d: &Driver) -> Value {
                 return json!({"op": "new", "w": dead[0], "vals": [rng.gen_range(1..900), rng.gen_range(1..900), rng.gen_range(1..900)]});
             }
             97..=99 if qfamily::N_QUERIES > 0 => {
-                return json!({"op": "query", "w": w, "q": rng.gen_range(0..qfamily::N_QUERIES), "v": rng.gen_range(1..50)});
+                let q = rng.gen_range(0..qfamily::N_QUERIES);
+                if qfamily::needs_target(q) {
+                    return json!({"op": "query", "w": w, "q": q, "v": rng.gen_range(1..50), "e": target(rng)});
+                }
+                return json!({"op": "query", "w": w, "q": q, "v": rng.gen_range(1..50)});
             }
             _ => continue,
         }
@@ -111,6 +137,7 @@ fn main() {
         "script" => {
             let out = BufWriter::new(File::create(&args[3]).unwrap());
             let mut d = Driver::new(Box::new(out));
+            d.qfamily = Some(QFamily { n: qfamily::N_QUERIES, run: qfamily::run, needs_target: qfamily::needs_target });
             d.wal = Some(format!("{}.cur", &args[3]));
             // `--light-last`: the last op of the script is observed structurally only
             let light_last = args.get(4).map(|a| a == "--light-last").unwrap_or(false);
@@ -158,13 +185,15 @@ fn main() {
             let seed: u64 = args[2].parse().unwrap();
             let histories: usize = args[3].parse().unwrap();
             let nops: usize = args[4].parse().unwrap();
+            let profile: String = args.get(6).cloned().unwrap_or_else(|| "mixed".to_string());
             let out = BufWriter::new(File::create(&args[5]).unwrap());
             let mut d = Driver::new(Box::new(out));
+            d.qfamily = Some(QFamily { n: qfamily::N_QUERIES, run: qfamily::run, needs_target: qfamily::needs_target });
             d.wal = Some(format!("{}.cur", &args[5]));
             for h in 0..histories {
                 let mut rng = StdRng::seed_from_u64(seed.wrapping_mul(1_000_003).wrapping_add(h as u64));
                 for _ in 0..nops {
-                    let op = gen_op(&mut rng, &d);
+                    let op = gen_op(&mut rng, &d, &profile);
                     if !d.exec(&op) {
                         break;
                     }
